@@ -50,6 +50,7 @@ DECIDING = {
     "default_name_in_start": "`default` resources added in start() (remapped for suffixed aliases)",
     "default_name_in_prepare": "`default` resources added in prepare() (never remapped)",
     "depth3_trees": "trees with grandchildren",
+    "ordered_dict_configs": "external configuration given as OrderedDict objects at every level",
 }
 ASSUMPTIONS = [
     "hard-coded kwargs never use the reserved keys `type` / `components`; None is only given for config-only children",
@@ -111,7 +112,7 @@ def gen_logical_tree(rng: Any) -> dict[str, Any]:
                 make(cpath, base, depth + 1, ckind, ashape)
 
     make("", "", 0, "hard")
-    return {"nodes": nodes, "root_kwargs": gen_kwargs(rng)}
+    return {"nodes": nodes, "root_kwargs": gen_kwargs(rng), "mapping_kind": rng.choice(["dict", "dict", "ordered"])}
 
 
 class Harness:
@@ -239,6 +240,16 @@ class Harness:
         if c:
             cfg["components"] = c
         cfg.update(self.extra(""))
+        if self.tree.get("mapping_kind") == "ordered":
+            # the configuration as dict *subclasses* at every level (e.g. what some YAML / TOML loaders produce)
+            import collections
+
+            def conv(x: Any) -> Any:
+                if isinstance(x, dict):
+                    return collections.OrderedDict((k, conv(v) if k == "components" or isinstance(v, dict) and k not in KEYS else v) for k, v in x.items())
+                return x
+
+            cfg = conv(cfg)
         return cfg
 
     def expected_kwargs(self) -> dict[str, Any]:
@@ -395,6 +406,8 @@ async def scenario(case: dict[str, Any], out: dict[str, Any]) -> None:
                         inc("nested_dict_merges")
     if any(p.count(".") >= 2 for p in nodes):
         inc("depth3_trees")
+    if tree.get("mapping_kind") == "ordered":
+        inc("ordered_dict_configs")
 
 
 def plan(tier: str) -> dict[str, Any]:
